@@ -243,6 +243,16 @@ def run(chk):
     options_present(chk, eng)
     output_parsers(chk)
     timestamp_exactness(chk)
+    # "the wire form of an update contains every option the operation was created with": the options object a handler puts into its START is
+    # built from the caller's configuration unchanged (callback timeouts, invoke target and tenant)
+    from .handlers import explore
+    from .common import handler_preamble
+    from .c01 import FUNCS
+    from . import hobl
+    for kind, ob in (("callback", hobl.c14_callback_create), ("invoke", hobl.c14_invoke)):
+        ex = explore(kind)
+        handler_preamble(chk, ex, FUNCS[kind])
+        ob(chk, ex, prefix="C20")
     chk.engine_stats = dict(eng.stats)
     chk.notes.append("normal form N: optional '' == absent; optional object with all fields absent == absent; JSON route: timestamps within 1 ms, exact on ms-aligned instants")
 
